@@ -30,6 +30,10 @@ elif lay == "systemd_symlink":
     os.rename("/etc/containers/systemd", "/etc/containers/systemd.real"); os.symlink("systemd.real", "/etc/containers/systemd")
 elif lay == "users_symlink_abs":
     os.rename("/etc/containers/systemd/users", "/etc/containers/users.real"); os.symlink("/etc/containers/users.real", "/etc/containers/systemd/users")
+elif lay == "users_symlink_chain":
+    os.rename("/etc/containers/systemd/users", "/etc/containers/users.rev2"); os.symlink("/etc/containers/users.rev2", "/etc/containers/users.current"); os.symlink("/etc/containers/users.current", "/etc/containers/systemd/users")
+elif lay == "users_symlink_chain_rel":
+    os.rename("/etc/containers/systemd/users", "/etc/containers/users.rev2"); os.symlink("users.rev2", "/etc/containers/users.current"); os.symlink("../users.current", "/etc/containers/systemd/users")
 elif lay.startswith("users_symlink_spelled:"):
     # the link target spelled with a trailing separator, a doubled separator or a '.' element: the same directory
     os.rename("/etc/containers/systemd/users", "/etc/containers/users.real"); os.symlink(lay.split(":", 1)[1], "/etc/containers/systemd/users")
@@ -96,7 +100,7 @@ def run(ctx):
                 "binary run as root (system generator), as 3 unprivileged UIDs (--user), as the system generator started by an unprivileged UID and as the user generator started by UID 0, with --dry-run; non-trivial = tree has a numeric directory with a nested subdirectory or a numeric "
                 "directory below a non-numeric one; distinct = distinct (tree, uid)")
     rng = ctx.rng
-    ntrees = ctx.volume(11, 66)
+    ntrees = ctx.volume(13, 78)
     if os.geteuid() != 0 or not shutil.which("unshare") or not shutil.which("setpriv"):
         ctx.oblig("end-to-end staging in a mount namespace (needs root, unshare, setpriv)", False, "not available in this environment")
         return
@@ -106,7 +110,7 @@ def run(ctx):
         uids = ["root"] + rng.sample([1000, 2000, 3000, 42, 77], 3) + [rng.choice(["sys1000", "sys42"]), 0, rng.choice(["1000.2000", "3000.1000", "42.0", "77.42"])]      # also: system generator as a user, user generator as UID 0, a user whose primary GID is another user's UID
         plan = {"dirs": [], "uids": uids, "layout": ["plain", "containers_symlink", "containers_symlink_abs", "systemd_symlink_abs", "users_symlink_abs", "systemd_symlink", "users_symlink",
                                                        "users_symlink_spelled:/etc/containers/users.real/", "users_symlink_spelled:/etc/containers//users.real", "users_symlink_spelled:/etc/containers/./users.real",
-                                                       "users_symlink_spelled:../users.real/"][t % 11]}
+                                                       "users_symlink_spelled:../users.real/", "users_symlink_chain", "users_symlink_chain_rel"][t % 13]}
         ctx.count("layout:" + plan["layout"])
         markers = {}
         for i, rel in enumerate(tree):
